@@ -803,7 +803,11 @@ func (ctx Ctx) callExpr(s *ast.CallExpr) coq.Expr {
 	} else {
 		if signature, ok := ctx.typeOf(s.Fun).(*types.Signature); ok {
 			for j := 0; j < signature.Params().Len(); j++ {
-				if _, ok := signature.Params().At(j).Type().Underlying().(*types.Interface); ok {
+				if iface, ok := signature.Params().At(j).Type().Underlying().(*types.Interface); ok {
+					if iface.Empty() {
+						// any value is an anyT; there is nothing to pack
+						continue
+					}
 					if j != 0 {
 						// only the first argument is wrapped in a conversion below
 						if j < len(s.Args) {
